@@ -36,7 +36,7 @@ class RefreshAccessToken(refresh_access_token.RefreshAccessToken):
                     _bound = _cstate.get_base_key(_idt["nonce"])
                 except KeyError:
                     raise ValueError("Invalid nonce value")
-                if _bound != key:
+                if _bound != key or _idt["nonce"] != _cstate.get_claim(key, "nonce"):
                     raise ParameterError('Someone has messed with "nonce"')
 
         refresh_access_token.RefreshAccessToken.update_service_context(self, resp, key, **kwargs)
